@@ -9,11 +9,12 @@
 (*          force-controlled torque, samples of v around the top edge (ring):    *)
 (*          that part is an OBSERVATION, the structure around it is the module's.*)
 (*  static  K_uu, c_u, f_u of a real ConeCyl.static(): residual judged at 2^-30  *)
-(*          of the row's term scale (OBSERVATION).                               *)
+(*          of the row's term scale or 2^-44 of the system's norm scale           *)
+(*          (OBSERVATION).                                                       *)
 (* Each event is judged with no deviation first, then with each named deviation  *)
 (* alone ("kf:<name>").                                                          *)
 EXTENDS ShellLoads, TraceLib
-CONSTANTS Tol, TolStatic
+CONSTANTS Tol, TolStatic, TolNorm
 VARIABLE l
 tvars == <<obj, phase, nreb, given, shell, loads, kukm, out, lastInc, l>>
 
@@ -59,10 +60,10 @@ RowsOf(m) == Ev([a \in 1..Len(m) |-> Ev([b \in 1..Len(m[a]) |-> Obs(m[a][b])])])
 VecOf(s) == Ev([a \in 1..Len(s) |-> Obs(s[a])])
 JudgeStatic(e) ==
     LET K == RowsOf(e.kuu)  c == VecOf(e.cu)  f == VecOf(e.f)
-        b0 == StaticBadRows(K, c, f, TolStatic, {})
+        b0 == StaticBadRows(K, c, f, TolStatic, TolNorm, {})
     IN IF Len(c) # Len(f) \/ Len(K) # Len(f) THEN <<"fail", {-2}>>
        ELSE IF b0 = {} THEN <<"ok", {}>>
-       ELSE LET hits == { d \in StaticDeviations : StaticBadRows(K, c, f, TolStatic, {d}) = {} }
+       ELSE LET hits == { d \in StaticDeviations : StaticBadRows(K, c, f, TolStatic, TolNorm, {d}) = {} }
             IN IF hits # {} THEN <<"kf:" \o (CHOOSE d \in hits : TRUE), b0>> ELSE <<"fail", b0>>
 
 TInit == LInit /\ l = 1
